@@ -19,7 +19,7 @@ theorem budget_all (m : Nat) : ∀ f, AllRel (.err .limit) f m f 0
   | 0 =>
     ⟨fun _ _ _ => fun _ => by simp only [execOne],
      fun _ _ _ => fun _ => by simp only [execBody],
-     fun _ _ _ => fun _ => by simp only [execTail],
+     fun _ _ _ _ => fun _ => by simp only [execTail],
      fun _ _ _ _ _ => fun _ => by simp only [runBody],
      fun _ _ => fun _ => by simp only [callBuiltin],
      fun _ _ _ _ _ => fun _ => by simp only [forLoop],
@@ -40,9 +40,9 @@ theorem execBody_budget (f m : Nat) (s : State) (o : Obj) (b : Bool)
     (h : (execBody f m s o b).2 ≠ .err .limit) : execBody f 0 s o b = execBody f m s o b :=
   (budget_all m f).body s o b h
 
-theorem execTail_budget (f m : Nat) (s : State) (o : Obj) (b : Bool)
-    (h : (execTail f m s o b).2 ≠ .err .limit) : execTail f 0 s o b = execTail f m s o b :=
-  (budget_all m f).tail s o b h
+theorem execTail_budget (f m : Nat) (s : State) (o : Obj) (b c : Bool)
+    (h : (execTail f m s o b c).2 ≠ .err .limit) : execTail f 0 s o b c = execTail f m s o b c :=
+  (budget_all m f).tail s o b c h
 
 theorem runBody_budget (f m : Nat) (s : State) (r o i n : Nat)
     (h : (runBody f m s r o i n).2 ≠ .err .limit) : runBody f 0 s r o i n = runBody f m s r o i n :=
